@@ -8,6 +8,7 @@ CONSTANTS
   WithInv = FALSE
   Dyn = FALSE
   WithDC = TRUE
+  WithWinch = FALSE
 VIEW View
 INVARIANT PlacementsExact
 INVARIANT NoDuplicates
